@@ -164,9 +164,43 @@ theorem trySendLoop_inv (c : Cfg) : ∀ (n : Nat) (t : Tx), TxInv c t →
       rw [hso]
       simp only
       have hinv' : TxInv c { t with freeTx := n, sent := t.sent ++ [pdu], frags := t.frags ++ [pdu],
+                                    allocLog := t.allocLog ++ [(pdu, t.maxTx)],
                                     size := t.size - copy, used := t.used + copy } :=
         ⟨hinv.len, hinv.noFault, hinv.maxTx, hinv.shape, hinv.st⟩
       exact ih _ hinv'
+
+/-- every PDU `try_send_pdus` ever committed was not larger than `max_tx_size()` as it was when the
+    buffer for that PDU was allocated -/
+def LogOk (t : Tx) : Prop := ∀ x ∈ t.allocLog, x.1.length ≤ x.2
+
+theorem trySendLoop_log (c : Cfg) : ∀ (n : Nat) (t : Tx), TxInv c t → LogOk t → LogOk (trySendLoop c n t) := by
+  intro n
+  induction n with
+  | zero => intro t _ hl; unfold trySendLoop; split <;> exact hl
+  | succ n ih =>
+    intro t h hl
+    unfold trySendLoop
+    split
+    · exact hl
+    · next h0 =>
+      obtain ⟨pdu, copy, hso, _, _, hle, _, _, hinv⟩ := sendOne_spec h h0
+      rw [hso]
+      simp only
+      have hinv' : TxInv c { t with freeTx := n, sent := t.sent ++ [pdu], frags := t.frags ++ [pdu],
+                                    allocLog := t.allocLog ++ [(pdu, t.maxTx)],
+                                    size := t.size - copy, used := t.used + copy } :=
+        ⟨hinv.len, hinv.noFault, hinv.maxTx, hinv.shape, hinv.st⟩
+      apply ih _ hinv'
+      intro x hx
+      simp only at hx
+      rcases List.mem_append.mp hx with hx | hx
+      · exact hl x hx
+      · simp only [List.mem_singleton] at hx; subst hx; exact hle
+
+theorem trySend_log {c : Cfg} {t : Tx} (h : TxInv c t) (hl : LogOk t) : LogOk (trySend c t) := by
+  unfold trySend
+  rw [h.noFault]
+  exact trySendLoop_log c _ t h hl
 
 theorem trySend_inv {c : Cfg} {t : Tx} (h : TxInv c t) :
     TxInv c (trySend c t) ∧ (trySend c t).maxTx = t.maxTx := by
